@@ -4236,15 +4236,20 @@ func (p *Posix) CopyObject(ctx context.Context, input s3response.CopyObjectInput
 		chType = res.ChecksumType
 	}
 
+	// the copy is done; the destination may already have been deleted or
+	// be in the middle of being replaced by a concurrent request again
+	lastModified := time.Now()
 	fi, err = os.Stat(dstObjdPath)
-	if err != nil {
+	if err == nil {
+		lastModified = fi.ModTime()
+	} else if !errors.Is(err, fs.ErrNotExist) {
 		return nil, fmt.Errorf("stat dst object: %w", err)
 	}
 
 	return &s3.CopyObjectOutput{
 		CopyObjectResult: &types.CopyObjectResult{
 			ETag:              &etag,
-			LastModified:      backend.GetTimePtr(fi.ModTime()),
+			LastModified:      backend.GetTimePtr(lastModified),
 			ChecksumCRC32:     crc32,
 			ChecksumCRC32C:    crc32c,
 			ChecksumSHA1:      sha1,
